@@ -121,6 +121,7 @@ def run_jobs(case, jobs, tracefile, timeout=60, exe=None, extra_env=None):
     with open(jf, "w") as f:
         for job in jobs: f.write(job_line(job))
     env = dict(os.environ, **ENV)
+    if case is not None and getattr(case, "gen", None) and case.gen.get("tables"): env["VF_TABLES"] = case.gen["tables"]
     if extra_env: env.update(extra_env)
     first = 0; crashes = 0
     while first < len(jobs):
